@@ -192,7 +192,13 @@ def schema_digest(schema):
         if isinstance(dv, dict):
             return {k: default_digest(x) for k, x in dv.items()}
         if hasattr(dv, "value"):
-            return {"raw": dv.value}
+            d = {"raw": dv.value}
+            # whatever else the object that holds a default says about it (its position, ...)
+            names = getattr(type(dv), "__slots__", None) or sorted(getattr(dv, "__dict__", {}))
+            for n in names:
+                if n != "value" and not n.startswith("_"):
+                    d[n] = repr(getattr(dv, n, None))
+            return d
         return repr(dv)
 
     def type_digest(t):
